@@ -660,7 +660,27 @@ func (w *world) mutations(t *rt.Tape, trace bool, res *core.Result, smp *sample,
 			src := encs[which]
 			m := append([]byte(nil), src...)
 			var desc string
-			switch t.Choose(rt.SFault, 6) {
+			switch t.Choose(rt.SFault, 7) {
+			case 6: // overwrite with an extreme variable-length integer (10-byte encodings up to 2^64-1)
+				pats := [][]byte{
+					{0xff, 0xff, 0xff, 0xff, 0xff, 0xff, 0xff, 0xff, 0xff, 0x01},
+					{0x80, 0x80, 0x80, 0x80, 0x80, 0x80, 0x80, 0x80, 0x80, 0x01},
+					{0xff, 0xff, 0xff, 0xff, 0xff, 0xff, 0xff, 0xff, 0x7f},
+					{0xff, 0xff, 0xff, 0xff, 0x0f},
+					{0xff, 0xff, 0xff, 0xff, 0xff, 0xff, 0xff, 0xff, 0xff, 0xff, 0xff},
+				}
+				pat := pats[t.Choose(rt.SFault, len(pats))]
+				off := t.Choose(rt.SFault, min(len(m), 48))
+				if t.Choose(rt.SFault, 4) == 0 {
+					off = t.Choose(rt.SFault, len(m))
+				}
+				if t.Choose(rt.SFault, 2) == 0 { // replace in place
+					copy(m[off:], pat)
+				} else { // insert
+					m = append(m[:off:off], append(append([]byte(nil), pat...), src[off:]...)...)
+				}
+				desc = fmt.Sprintf("varint extreme %x at %d", pat, off)
+				res.Faults["mutation.varint-extreme"]++
 			case 0, 1: // bit flip
 				off := t.Choose(rt.SFault, len(m))
 				if t.Choose(rt.SFault, 2) == 0 {
